@@ -8,7 +8,7 @@ import numpy as np
 from scipy.special import ndtri
 
 
-BLOB_MODES = {"blobs": 1, "blobs2": 2, "blobs_auto": 1, "blobs_str": 1, "blobs_rec": 2, "blobs_arr": 1}
+BLOB_MODES = {"blobs": 1, "blobs2": 2, "blobs_auto": 1, "blobs_str": 1, "blobs_rec": 2, "blobs_arr": 1, "blobs_f4": 1, "blobs_int": 1}
 
 
 class Target:
@@ -87,6 +87,10 @@ class Target:
             return [self.blob_row(x), 2.0 * float(x[self.d - 1]) - 1.0]
         if self.mode == "blobs_str":
             return [repr(float(x[0]))]  # strings of different lengths (3..24 characters): truncation would show
+        if self.mode == "blobs_f4":
+            return [float(np.float32(self.blob_row(x)))]  # what a float32 blobs array holds
+        if self.mode == "blobs_int":
+            return [int(math.floor(1000.0 * float(x[0])))]
         return [self.blob_row(x)]
 
     def blob_match(self, x, stored):
@@ -105,6 +109,13 @@ class Target:
         v = self.ll_row(x)
         self.n_finite += int(math.isfinite(v))
         return v, np.array(self.blob_vec(x))  # ONE array-valued blob
+
+    def loglike_blobs_int(self, x):
+        self.n_calls += 1
+        self.n_points += 1
+        v = self.ll_row(x)
+        self.n_finite += int(math.isfinite(v))
+        return v, int(math.floor(1000.0 * float(x[0])))
 
     def loglike_blobs_str(self, x):
         self.n_calls += 1
@@ -148,7 +159,8 @@ class Target:
     def loglike(self):
         return {"vector": self.loglike_vector, "scalar": self.loglike_scalar, "blobs": self.loglike_blobs,
                 "blobs2": self.loglike_blobs2, "blobs_auto": self.loglike_blobs, "blobs_str": self.loglike_blobs_str,
-                "blobs_rec": self.loglike_blobs2, "blobs_arr": self.loglike_blobs_arr}[self.mode]
+                "blobs_rec": self.loglike_blobs2, "blobs_arr": self.loglike_blobs_arr, "blobs_f4": self.loglike_blobs,
+                "blobs_int": self.loglike_blobs_int}[self.mode]
 
     def sampler_kwargs(self):
         kw = {"prior_transform": self.pt, "log_likelihood": self.loglike, "n_dim": self.d}
@@ -156,6 +168,10 @@ class Target:
             kw["vectorize"] = True
         if self.mode in ("blobs", "blobs2"):
             kw["blobs_dtype"] = "float"
+        if self.mode == "blobs_f4":
+            kw["blobs_dtype"] = "float32"  # a reduced-precision blob must not touch the precision of the log-likelihood
+        if self.mode == "blobs_int":
+            kw["blobs_dtype"] = int
         if self.mode == "blobs_rec":
             kw["blobs_dtype"] = [("a", float), ("b", float)]  # structured dtype with named fields (docs/examples/blobs.md)
         if self.mode == "blobs_arr":
